@@ -63,6 +63,7 @@ func cmdC17Iface(c *ctx) {
 	reGlslIn := regexp.MustCompile(`layout\(location = (\d+)\)\s*(?:flat |smooth |noperspective |centroid |sample )*in\b`)
 	reGlslOut := regexp.MustCompile(`layout\(location = (\d+)\)\s*(?:flat |smooth |noperspective |centroid |sample )*out\b`)
 	reHlslLoc := regexp.MustCompile(`:\s*LOC(\d+)\b`)
+	c17ComputeBuiltins(c)
 	for i := 0; i < c.n; i++ {
 		stage := []string{"vertex", "fragment"}[c.rng.Intn(2)]
 		usedLoc, usedB := map[int]bool{}, map[string]bool{}
@@ -252,3 +253,94 @@ func cmdC17Iface(c *ctx) {
 }
 
 func init() { commands["c17iface"] = cmdC17Iface }
+
+
+// compute builtins: every non-empty subset of the five compute-stage builtin inputs, as bare arguments; each must reach the
+// text as its own target-language builtin — HLSL: SV_GroupThreadID / SV_GroupIndex / SV_DispatchThreadID / SV_GroupID, and
+// num_workgroups (for which HLSL has no system value) through the special-constants buffer; MSL: thread_position_in_threadgroup /
+// thread_index_in_threadgroup / thread_position_in_grid / threadgroup_position_in_grid / threadgroups_per_grid; GLSL:
+// gl_LocalInvocationID / gl_LocalInvocationIndex / gl_GlobalInvocationID / gl_WorkGroupID / gl_NumWorkGroups.
+func c17ComputeBuiltins(c *ctx) {
+	type bi struct{ wgsl, ty, hlsl, msl, glsl string }
+	all := []bi{
+		{"local_invocation_id", "vec3<u32>", "SV_GroupThreadID", "thread_position_in_threadgroup", "gl_LocalInvocationID"},
+		{"local_invocation_index", "u32", "SV_GroupIndex", "thread_index_in_threadgroup", "gl_LocalInvocationIndex"},
+		{"global_invocation_id", "vec3<u32>", "SV_DispatchThreadID", "thread_position_in_grid", "gl_GlobalInvocationID"},
+		{"workgroup_id", "vec3<u32>", "SV_GroupID", "threadgroup_position_in_grid", "gl_WorkGroupID"},
+		{"num_workgroups", "vec3<u32>", "", "threadgroups_per_grid", "gl_NumWorkGroups"},
+	}
+	for mask := 1; mask < 32; mask++ {
+		var params, uses []string
+		var sel []bi
+		for k, b := range all {
+			if mask&(1<<k) == 0 {
+				continue
+			}
+			sel = append(sel, b)
+			params = append(params, fmt.Sprintf("@builtin(%s) b%d: %s", b.wgsl, k, b.ty))
+			if b.ty == "u32" {
+				uses = append(uses, fmt.Sprintf("b%d", k))
+			} else {
+				uses = append(uses, fmt.Sprintf("b%d.x + b%d.z", k, k))
+			}
+		}
+		src := "@group(0) @binding(0) var<storage, read_write> o: array<u32>;\n@compute @workgroup_size(2, 1, 1)\nfn cs(" + strings.Join(params, ", ") +
+			") {\n  o[0] = " + strings.Join(uses, " + ") + ";\n}\n"
+		src = strings.ReplaceAll(src, "\\n", "\n")
+		mod, res := frontEnd(src)
+		if mod == nil {
+			c.count("frontend-rejected")
+			c.line("rejected.txt", q(src)+" "+q(fmt.Sprint(res)))
+			continue
+		}
+		report := func(dialect, what, text string) {
+			c.line("violations.txt", q(dialect+": "+what)+" "+q(src)+" "+q(text))
+			c.count("violations")
+		}
+		for _, d := range []string{"hlsl", "msl", "glsl"} {
+			var text string
+			r := guard(d, func() error {
+				var err error
+				switch d {
+				case "hlsl":
+					text, _, err = hlsl.Compile(mod, hlsl.DefaultOptions())
+				case "msl":
+					text, _, err = msl.Compile(mod, msl.DefaultOptions())
+				default:
+					text, _, err = glsl.Compile(mod, glsl.Options{LangVersion: glsl.Version450, EntryPoint: "cs"})
+				}
+				return err
+			})
+			c.count("texts:" + d)
+			if r.err != "" {
+				// refusing num_workgroups without the special-constants buffer is an honest answer for HLSL
+				if d == "hlsl" && mask&16 != 0 {
+					c.count("hlsl-num-workgroups-refused")
+					continue
+				}
+				c.line("backend-errors.txt", q(d+": "+oneLine(r.err))+" "+q(src))
+				continue
+			}
+			if _, perr := cparse(text); perr != nil {
+				report(d, "emitted text unreadable: "+perr.Error(), text)
+				continue
+			}
+			for _, b := range sel {
+				want := map[string]string{"hlsl": b.hlsl, "msl": b.msl, "glsl": b.glsl}[d]
+				if want == "" {
+					// HLSL num_workgroups: no system value may stand in for it
+					if n := strings.Count(text, "SV_GroupID"); n > 0 && mask&8 == 0 {
+						report(d, "@builtin(num_workgroups) is read from SV_GroupID (the workgroup id)", text)
+					} else if mask&8 != 0 && n > 1 {
+						report(d, "@builtin(num_workgroups) and @builtin(workgroup_id) are both read from SV_GroupID", text)
+					}
+					continue
+				}
+				if !strings.Contains(text, want) {
+					report(d, fmt.Sprintf("@builtin(%s): `%s` does not occur in the text", b.wgsl, want), text)
+				}
+			}
+		}
+		c.count("compute-builtin-modules")
+	}
+}
